@@ -826,8 +826,9 @@ impl<T: GseDecapMemory, C: CrcCalculator, MHEM: MandatoryHeaderExtensionManager>
             )
         };
 
-        let total_len_received = (pdu_len + PROTOCOL_LEN + first_label_len) as u16;
-        if decap_context.total_len != total_len_received {
+        // compared without truncation: a pdu longer than 65535 bytes must not wrap onto the announced length
+        let total_len_received = pdu_len + PROTOCOL_LEN + first_label_len;
+        if decap_context.total_len as usize != total_len_received {
             return Err(self.give_back_storage(pdu, DecapError::ErrorTotalLength, pkt_len));
         }
 
